@@ -1,6 +1,6 @@
 /-
 Model of the Pratt expression parser of pkg/parser/expression.go (parseExpr, parseUnaryExpr,
-parseBinaryExpr, parseGroupedExpr, parseIndexOrSliceExpr without slices) on the token KINDS of an
+parseBinaryExpr, parseGroupedExpr, parseIndexOrSliceExpr, parseSlice, parseDotExpr, parseTypeAssertion) on the token KINDS of an
 expression outside a whitespace-sensitive context: operands are atoms, types are not modelled.
 The binding powers are those of the extracted table (Props/C01Pratt.lean proves the agreement with
 Gen/Tables.lean on every run).
@@ -42,6 +42,9 @@ inductive Tok
   | bang
   | lparen | rparen
   | lbracket | rbracket
+  | dot                 -- field access `.key` and type assertion `.(type)`
+  | colon               -- inside a slice
+  | ty (n : Nat)        -- a type, in a type assertion (one token here; the harness collapses `[]num` …)
   | other               -- anything else (end of the expression)
   deriving DecidableEq, Repr, Inhabited
 
@@ -51,13 +54,47 @@ inductive E
   | bin (o : BinOp) (l r : E)
   | group (e : E)
   | index (l i : E)
+  | sliceAll (l : E)                 -- l[:]
+  | sliceTo (l b : E)                -- l[:b]
+  | sliceFrom (l a : E)              -- l[a:]
+  | slice (l a b : E)                -- l[a:b]
+  | dot (l : E) (key : Nat)          -- l.key
+  | assert (l : E) (t : Nat)         -- l.(type)
   deriving DecidableEq, Repr, Inhabited
 
 /-- `precedences[tok]`: 0 for a token that is not in the table -/
 def Tok.prec : Tok → Nat
   | .op o => o.prec
   | .lbracket => indexPrec
+  | .dot => indexPrec
   | _ => 0
+
+/-- after `left[`: parseIndexOrSliceExpr and parseSlice. `pe` parses an expression at binding power 0,
+`lp` continues the loop with the new left operand -/
+def bracket (pe : List Tok → Option (E × List Tok)) (lp : E → List Tok → Option (E × List Tok)) (left : E) (r : List Tok) :
+    Option (E × List Tok) :=
+  match r with
+  | .colon :: .rbracket :: r2 => lp (.sliceAll left) r2            -- l[:]
+  | .colon :: r1 =>
+    match pe r1 with
+    | some (b, .rbracket :: r2) => lp (.sliceTo left b) r2         -- l[:b]
+    | _ => none
+  | _ =>
+    match pe r with
+    | some (i, .rbracket :: r') => lp (.index left i) r'           -- l[i]
+    | some (a, .colon :: .rbracket :: r') => lp (.sliceFrom left a) r'   -- l[a:]
+    | some (a, .colon :: r1) =>
+      match pe r1 with
+      | some (b, .rbracket :: r2) => lp (.slice left a b) r2       -- l[a:b]
+      | _ => none
+    | _ => none
+
+/-- after `left.`: parseTypeAssertion and parseDotExpr -/
+def dotted (lp : E → List Tok → Option (E × List Tok)) (left : E) (r : List Tok) : Option (E × List Tok) :=
+  match r with
+  | .lparen :: .ty t :: .rparen :: r' => lp (.assert left t) r'
+  | .atom k :: r' => lp (.dot left k) r'
+  | _ => none
 
 mutual
 /-- parseExpr(prec): the prefix part, then the loop -/
@@ -90,12 +127,8 @@ def loop : Nat → Nat → E → List Tok → Option (E × List Tok)
         | some (right, r') => loop f p (.bin o left right) r'
         | none => none
       else some (left, ts)
-    | .lbracket :: r =>
-      if p < indexPrec then
-        match parseExpr f 0 r with
-        | some (i, .rbracket :: r') => loop f p (.index left i) r'
-        | _ => none
-      else some (left, ts)
+    | .lbracket :: r => if p < indexPrec then bracket (parseExpr f 0) (loop f p) left r else some (left, ts)
+    | .dot :: r => if p < indexPrec then dotted (loop f p) left r else some (left, ts)
     | _ => some (left, ts)
 end
 
@@ -107,6 +140,12 @@ def toks : E → List Tok
   | .bin o l r => toks l ++ .op o :: toks r
   | .group e => .lparen :: toks e ++ [.rparen]
   | .index l i => toks l ++ .lbracket :: toks i ++ [.rbracket]
+  | .sliceAll l => toks l ++ [.lbracket, .colon, .rbracket]
+  | .sliceTo l b => toks l ++ .lbracket :: .colon :: toks b ++ [.rbracket]
+  | .sliceFrom l a => toks l ++ .lbracket :: toks a ++ [.colon, .rbracket]
+  | .slice l a b => toks l ++ .lbracket :: toks a ++ .colon :: toks b ++ [.rbracket]
+  | .dot l k => toks l ++ [.dot, .atom k]
+  | .assert l t => toks l ++ [.dot, .lparen, .ty t, .rparen]
 
 /-- the whole parse of an expression text: enough fuel for its length -/
 def parse (ts : List Tok) : Option (E × List Tok) := parseExpr (2 * ts.length + 2) 0 ts
